@@ -23,6 +23,12 @@ tracecheck() {
   VERIF_NEED_REAL=1 VERIF_ENGINES=e1 "$VERIF/tools/build.sh" "$BIN" || exit 2
   "$BIN/e1" tracecheck "${VERIF_SELFTEST_N:-150}" "$BIN/gts-real" "${VERIF_SEED:-1}" || rc=2
 }
+parseq() {
+  # parties of a par step that run one after the other must do exactly what
+  # the same invocations do as a sequence (hand-over of process state)
+  VERIF_ENGINES=e1 "$VERIF/tools/build.sh" "$BIN" || exit 2
+  "$BIN/e1" parseq "${VERIF_SELFTEST_N:-1500}" "${VERIF_SEED:-1}" || rc=2
+}
 determinism() {
   # the same seeds, executed in separate OS processes under different worker
   # counts and GOMAXPROCS values, must give identical batch digests
@@ -75,9 +81,10 @@ case "$what" in
   simfs) simfs ;;
   fidelity) fidelity ;;
   tracecheck) tracecheck ;;
+  parseq) parseq ;;
   determinism) determinism ;;
   sensitivity) sensitivity ;;
-  all) simfs; fidelity; tracecheck; determinism; sensitivity ;;
+  all) simfs; fidelity; tracecheck; parseq; determinism; sensitivity ;;
   *) echo "unknown selftest $what"; exit 2 ;;
 esac
 [ $rc -eq 0 ] && echo "selftest $what: ok"
